@@ -297,7 +297,13 @@ static void checkTypeOfMaintainedParameter(const std::string &groupName, const e
     const std::string& name(p.name());
     ezc3d::DATA_TYPE expected(ezc3d::DATA_TYPE::NONE);
     bool needsValue(false);
-    if (!name.compare("USED") || (isPoint && !name.compare("FRAMES"))){
+    bool isSingleValue(false);
+    if (isPoint && !name.compare("DATA_START")){
+        // Written as one 16-bit word, whose place in the file is patched afterwards
+        expected = ezc3d::DATA_TYPE::INT;
+        needsValue = true;
+        isSingleValue = true;
+    } else if (!name.compare("USED") || (isPoint && !name.compare("FRAMES"))){
         expected = ezc3d::DATA_TYPE::INT;
         needsValue = true;
     } else if (!name.compare("RATE")){
@@ -318,6 +324,8 @@ static void checkTypeOfMaintainedParameter(const std::string &groupName, const e
         nValues *= p.dimension()[i];
     if (needsValue && nValues == 0)
         throw std::invalid_argument(groupName + ":" + name + " must hold a value");
+    if (isSingleValue && nValues != 1)
+        throw std::invalid_argument(groupName + ":" + name + " must hold a single value");
 }
 
 void ezc3d::c3d::parameter(const std::string &groupName, const ezc3d::ParametersNS::GroupNS::Parameter &p)
